@@ -276,6 +276,43 @@ def purity(expr: str, engine: str):
     return check
 
 
+def sqlite_paged(n: int = 3, m: int = 1, batch: int = 1):
+    """The real SqliteReader.__iter__ AND the real read_table (fetchmany pagination) over a statement-level connection model with an
+    uninterpreted selector: rows of two tables, reader batch size symbolic - every page boundary x every outcome vector."""
+    from flow.record.adapter.sqlite import SqliteReader
+    from harness import C18
+    from vf.ob import HarnessInconclusive
+
+    tables = {"t/a": [("n", "BIGINT"), ("s", "TEXT")], "t/b": [("k", "BIGINT")]}
+
+    def check(b0: bool, b1: bool, b2: bool, b3: bool, b4: bool, b5: bool) -> bool:
+        """
+        post: _
+        """
+        outs = [b0, b1, b2, b3, b4, b5][: n + m]
+        rows_a = [(0, "r0"), (1, "r1"), (2, "r2"), (3, "r3")][:n]
+        rows_b = [(10,), (11,)][:m]
+        rd = object.__new__(SqliteReader)
+        sel = OutcomeSelector(outs)
+        rd.selector = sel
+        rd.descriptors_seen = set()
+        rd.con = C18.ReadCon(tables, {"t/a": rows_a, "t/b": rows_b})
+        rd.count = 0
+        rd.batch_size = batch
+        try:
+            got = list(rd)
+        except C18.UnknownSQL as e:
+            raise HarnessInconclusive(f"statement not modelled: {e}")
+        # every row was offered to the selector exactly once, in order; exactly the accepted ones come out, by identity
+        keys = [getattr(r, "n", None) if r._desc.name == "t/a" else r.k for r in sel.seen]
+        if keys != [r[0] for r in rows_a] + [r[0] for r in rows_b]:
+            return False
+        want = [r for r, b in zip(sel.seen, outs) if b]
+        return len(got) == len(want) and all(g is w for g, w in zip(got, want))
+
+    return check
+
+
 KIND_EXPRS = [
     "'evil' in Type.string",
     "Type.varint == 3",
@@ -368,6 +405,10 @@ def obligations(tier, seed):
     obs = []
     for reader in ("stream", "json", "jsonplain", "avro", "csv", "sqlite"):
         obs.append(ob(f"O1-loop/{reader}/N{n}", "xh", "loop", {"reader": reader, "n": n}, timeout=30 if tier == "quick" else 120, bounds=f"N={n} records, all 2^{n} outcome vectors"))
+    pn, pm = (3, 1) if tier == "quick" else (4, 2)
+    for batch in range(1, pn + 2):
+        obs.append(ob(f"O1-loop/sqlite-paged/batch{batch}", "xh", "sqlite_paged", {"n": pn, "m": pm, "batch": batch}, timeout=90 if tier == "quick" else 400, group="O1-loop",
+                      bounds=f"{pn} + {pm} rows in two tables, reader batch size {batch}, all 2^{pn + pm} outcome vectors, real read_table over a connection model"))
     for reader in ("stream", "sqlite"):
         obs.append(ob(f"O1-noselector/{reader}", "xh", "noselector", {"reader": reader}, timeout=20, bounds="k <= 6 records"))
     obs.append(ob("O1-make_selector", "xh", "mksel", {}, timeout=20, bounds="kinds of selector argument x force_compiled"))
@@ -416,6 +457,28 @@ def _real_roundtrip(fmt, outs):
 def replay(res):
     a = res["args"]
     gid = res["id"]
+    if "sqlite-paged" in gid:
+        # real sqlite3: a small reader batch size, every outcome vector of 6 rows; with a selector vs. filtering afterwards
+        from flow.record import RecordDescriptor, RecordReader, RecordWriter
+        from flow.record.selector import Selector
+
+        D = RecordDescriptor("t/a", [("varint", "n")])
+        with tempdir() as d:
+            path = os.path.join(d, "x.sqlite")
+            w = RecordWriter("sqlite://" + path)
+            for i in range(6):
+                w.write(D(i))
+            w.flush()
+            w.close()
+            for bs in (1, 2, 3, 6, 1000):
+                for mask in range(64):
+                    keep = [i for i in range(6) if mask >> i & 1]
+                    text = "r.n in [%s]" % ", ".join(map(str, keep))
+                    with RecordReader(f"sqlite://{path}?batch_size={bs}", selector=text) as rd:
+                        got = [int(r.n) for r in rd]
+                    if got != keep:
+                        return {"reproduced": True, "key": "C10/loop/sqlite-paged", "what": f"sqlite reader with batch_size={bs} and selector {text!r} yields {got}, filtering afterwards keeps {keep}", "input": {"batch_size": bs, "keep": keep}}
+        return {"reproduced": False, "what": "sqlite reader equals filtering afterwards for every outcome vector and batch size"}
     if "O1-loop" in gid:
         names = ["b0", "b1", "b2", "b3", "b4", "b5"]
         vals = cex_args(res, names)
